@@ -8,7 +8,8 @@
 From Coq Require Import Strings.String Strings.Byte.
 From Coq Require Import List Arith NArith ZArith Bool Lia.
 From Verif Require Import Base.Bytes Base.Val Base.Outcome Model.Xfer Model.RawProto Model.ReadLoop
-  Model.SizedLoop.
+  Model.SizedLoop Model.GunzipAlloc.
+From Verif Require Model.Md5.
 From Verif Require Corr.C12.
 Import ListNotations.
 
@@ -57,12 +58,26 @@ Definition run_sized (lim : N) (s : bytes) (tab : list val) (obs : val) : option
     | (_, OutOfFuel) => None
     end.
 
+(* the filters registered in the cmd/c06 process besides hlib's test filters: the shipped
+   filters under ids of their own and behind the packing wrappers (harness/cmd/c06/forged.go;
+   a wrapper unpacks with the real filter), and hlib's second registration of gzip (0xF0).
+   gzip is a library: with an empty table the gzip model accepts the empty payload and refuses
+   everything else, which is what the real filter does with the payloads these streams carry
+   (none of them is a well-formed gzip member with honest trailers). A byte flip that turns a
+   pipe id into one of these ids therefore meets the same registry on both sides. *)
+Definition gzip_like (id : N) : filter :=
+  mkFilter (n2b id) (fun _ => None) (fun d => match d with [] => Some [] | _ => None end).
+Definition raw_registry : registry :=
+  Corr.C12.registry_of [] ++
+  map gzip_like [65; 66; 67; 68; 69; 70; 224; 225; 226; 227; 228; 229; 240]%N ++
+  [md5_filter Model.Md5.md5 (n2b 77); md5_filter Model.Md5.md5 (n2b 232)].
+
 Definition run (inp : val) : option val :=
   match inp with
   | VL [VS tag; VN lim; VB s; VL tab; obs] =>
       if bytes_eqb tag (str "sized") then run_sized lim s tab obs else None
   | VL [VN lim; VB s; obs] =>
-      let reg := Corr.C12.registry_of [] in
+      let reg := raw_registry in
       match reader (S (length s)) reg lim s 0 with
       | (pre, Blocked) => Some (VL [VN pre; vbool false])
       | (pre, Disconnected) => Some (VL [VN pre; vbool true])
@@ -74,11 +89,46 @@ Definition run (inp : val) : option val :=
   | _ => None
   end.
 
+(* ---- transfer filters called directly (cmd/c06 -mode xfer):
+   (sgz nLIM sHDROK nINFLATED sCRCOK nISIZE nDELTA)  gzip.Gzip.OnUnpack on a payload whose header is
+     accepted or not, whose deflate stream yields nINFLATED bytes, whose CRC trailer matches or
+     not and whose ISIZE trailer announces nISIZE; nDELTA = growth of runtime.MemStats.TotalAlloc
+     measured around the call;
+   (smd5 nLIM nLEN sDIGESTOK nDELTA)  md5Hash.OnUnpack on nLEN bytes.
+   Observations ((sok nLEN)|serr  strue): the result class, and "the measured allocation is within
+   the model's bound on the buffers it requests (gunzip_total_bound, resp. 16) plus
+   [runtime_slack]", the allowance for what compress/gzip, compress/flate and crypto/md5 allocate
+   for themselves whatever the payload says (reader state and window when the filter's pool is
+   empty, an extra field of at most 65535 bytes). The model's side of that flag is computed from
+   nDELTA here, so the bound lives in one place. ---- *)
+Definition runtime_slack : N := 196608.
+
+Definition res_val (r : option N) : val :=
+  match r with Some n => VL [vsym "ok"; VN n] | None => vsym "err" end.
+
+Definition run_xfer (inp : val) : option val :=
+  match inp with
+  | VL [VS tag; VN lim; hdr; VN len; crc; VN isize; VN delta] =>
+      if bytes_eqb tag (str "gz") then
+        let g := mk_gzsrc (sym_eqb hdr "true") (repeat "000"%byte (N.to_nat len))
+                          (sym_eqb crc "true") isize in
+        Some (VL [res_val (option_map blen (gunzip_result lim g));
+                  vbool (delta <=? gunzip_total_bound lim + runtime_slack)%N])
+      else None
+  | VL [VS tag; VN lim; VN len; dok; VN delta] =>
+      if bytes_eqb tag (str "md5") then
+        Some (VL [res_val (md5_unpack_result len (sym_eqb dok "true"));
+                  vbool (delta <=? 16 + runtime_slack)%N])
+      else None
+  | _ => None
+  end.
+
 (* the observation is passed inside the inputs as well, see above *)
 Definition check_line (line : bytes) : bytes :=
   match parse_val line with
   | Some (VL [VL [tag; lim; s; tab]; obs]) =>
       check_line_with run (print_val (VL [VL [tag; lim; s; tab; obs]; obs]))
   | Some (VL [VL [lim; s]; obs]) => check_line_with run (print_val (VL [VL [lim; s; obs]; obs]))
+  | Some (VL [VL (_ :: _ :: _ :: _ :: _ :: _); _]) => check_line_with run_xfer line
   | _ => str "MALFORMED"
   end.
